@@ -1904,7 +1904,25 @@ impl TransactionBuilder {
                     ma.map(|assets| assets.partial_cmp(&MultiAsset::new()) == Some(Ordering::Greater))
                         .unwrap_or(false)
                 }
-                let change_estimator = input_total.checked_sub(&output_total)?;
+                // asset entries with quantity 0 are not carried into change outputs (a zero-quantity asset or a policy
+                // left without assets is not valid in an output)
+                fn without_zero_assets(value: Value) -> Value {
+                    let mut kept = MultiAsset::new();
+                    if let Some(ma) = &value.multiasset {
+                        for (policy, assets) in &ma.0 {
+                            for (asset_name, quantity) in &assets.0 {
+                                if !quantity.is_zero() {
+                                    kept.set_asset(policy, asset_name, quantity);
+                                }
+                            }
+                        }
+                    }
+                    Value {
+                        coin: value.coin,
+                        multiasset: if kept.len() > 0 { Some(kept) } else { None },
+                    }
+                }
+                let change_estimator = without_zero_assets(input_total.checked_sub(&output_total)?);
                 if has_assets(change_estimator.multiasset()) {
                     fn will_adding_asset_make_output_overflow(
                         output: &TransactionOutput,
@@ -2044,7 +2062,7 @@ impl TransactionBuilder {
                         change_assets.push(output.amount.multiasset().unwrap());
                         Ok(change_assets)
                     }
-                    let mut change_left = input_total.checked_sub(&output_total)?;
+                    let mut change_left = change_estimator.clone();
                     let mut new_fee = fee.clone();
                     // we might need multiple change outputs for cases where the change has many asset types
                     // which surpass the max UTXO size limit
